@@ -9,6 +9,7 @@ import (
 	"bytes"
 	"encoding/json"
 	"fmt"
+	"go/ast"
 	"go/parser"
 	"os"
 	"os/exec"
@@ -211,6 +212,37 @@ func (p *prop) Run(c core.Case, w *core.Worker) core.Result {
 			continue
 		}
 		res.Inc("literals_parsed")
+		// the literal ALONE in a file with exactly the imports its own rendering registers (a fresh tracker): every
+		// registered import must be used by the text, every qualifier must be bound - otherwise that file would not
+		// compile ("imported and not used" / undefined). The batch program below shares one import block between many
+		// literals and cannot see this.
+		{
+			var b1 bytes.Buffer
+			tr1 := namer.NewDefaultImportTracker()
+			sw1 := gengo.NewSnippetWriter(&b1, namer.NameSystems{"raw": namer.NewRawNamer(target, tr1)})
+			if pk1, _, _ := core.Guard(func() { sw1.Render(sn) }); !pk1 {
+				if x, err := parser.ParseExpr(b1.String()); err == nil {
+					used := map[string]bool{}
+					ast.Inspect(x, func(n ast.Node) bool {
+						if se, ok := n.(*ast.SelectorExpr); ok {
+							if id, ok := se.X.(*ast.Ident); ok {
+								used[id.Name] = true
+							}
+						}
+						return true
+					})
+					for path, name := range tr1.Imports() {
+						if path == target {
+							continue
+						}
+						if !used[name] {
+							res.Fail("compile", "alone: unused import "+info.Root, fmt.Sprintf("value %d (%s = %s) rendered alone registers import %s %q which its text never uses - a file holding this literal and the imports it registered does not compile:\n%s", i, info.Root, clip(info.OrigDump, 300), name, path, clip(b1.String(), 500)), map[string]any{"i": i, "seed": seed})
+						}
+					}
+					res.Inc("literals_checked_alone_against_their_own_imports")
+				}
+			}
+		}
 		info.Decl = "short"
 		switch v.Kind() {
 		case reflect.Struct, reflect.Map, reflect.Slice, reflect.Array:
